@@ -663,4 +663,291 @@ theorem cyc_relations_iff (hinv : ∀ z, conj (conj z) = z) (hγ : γ ^ 2 - γ +
 
 end frobenius
 
+/-! ## Part C: the stacked model
+
+`OpsHom o ev half`: the map `ev : E → S` into a commutative ring carries the operations of the record `o` to the ring
+operations (halving to multiplication by `half`). If the operations of a level have this property, so have the
+operations of the quadratic / cubic level the model builds on it, for the evaluation  a ↦ ev a₀ + ev a₁·x (+ ev a₂·x²)
+at any root x of X² − ν (X³ − ν) in S. Starting from `natOps p → ZMod p` this covers the model exactly as the driver
+runs it: whatever ring S contains the roots (e.g. the iterated quotient ring itself), evaluation of the model's results
+is the ring operation on the evaluations of the operands. -/
+
+section partC
+variable {E S : Type} [CommRing S]
+
+structure OpsHom (o : FOps E) (ev : E → S) (half : S) : Prop where
+  zero : ev o.zero = 0
+  one : ev o.one = 1
+  add : ∀ a b, ev (o.add a b) = ev a + ev b
+  sub : ∀ a b, ev (o.sub a b) = ev a - ev b
+  mul : ∀ a b, ev (o.mul a b) = ev a * ev b
+  neg : ∀ a, ev (o.neg a) = - ev a
+  sqr : ∀ a, ev (o.sqr a) = ev a * ev a
+  dbl : ∀ a, ev (o.dbl a) = ev a + ev a
+  hlv : ∀ a, ev (o.hlv a) = half * ev a
+
+variable {o : FOps E} {ev : E → S} {half : S}
+
+theorem OpsHom.iter_sub (h : OpsHom o ev half) (t : E) : ∀ (n : Nat) (x : E),
+    ev (iter (fun y => o.sub y t) n x) = ev x - n * ev t
+  | 0, x => by simp [iter]
+  | n + 1, x => by rw [iter, OpsHom.iter_sub h t n, h.sub]; push_cast; ring
+
+theorem OpsHom.iter_add (h : OpsHom o ev half) (t : E) : ∀ (n : Nat) (x : E),
+    ev (iter (fun y => o.add y t) n x) = ev x + n * ev t
+  | 0, x => by simp [iter]
+  | n + 1, x => by rw [iter, OpsHom.iter_add h t n, h.add]; push_cast; ring
+
+/-- evaluation of a pair / triple at x -/
+def ev2 (ev : E → S) (x : S) (a : V2 E) : S := ev a.c0 + ev a.c1 * x
+def ev3 (ev : E → S) (x : S) (a : V3 E) : S := ev a.c0 + ev a.c1 * x + ev a.c2 * (x * x)
+
+/-- a quadratic level -/
+theorem quadHom (h : OpsHom o ev half) (nor : E → E) (ν x : S) (hn : ∀ a, ev (nor a) = ν * ev a) (hx : x * x = ν) :
+    OpsHom (quadOps o nor) (ev2 ev x) half where
+  zero := by simp [quadOps, ev2, h.zero]
+  one := by simp [quadOps, ev2, h.zero, h.one]
+  add a b := by simp only [quadOps, ev2, v2Add, h.add]; ring
+  sub a b := by simp only [quadOps, ev2, v2Sub, h.sub]; ring
+  neg a := by simp only [quadOps, ev2, v2Neg, h.neg]; ring
+  dbl a := by simp only [quadOps, ev2, v2Dbl, h.dbl]; ring
+  hlv a := by simp only [quadOps, ev2, v2Hlv, h.hlv]; ring
+  mul a b := by
+    simp only [quadOps, ev2, quadMul, h.add, h.sub, h.mul, hn]
+    linear_combination (-(ev a.c1 * ev b.c1)) * hx
+  sqr a := by
+    simp only [quadOps, ev2, quadSqr, h.add, h.sub, h.mul, h.dbl, hn]
+    linear_combination (-(ev a.c1 * ev a.c1)) * hx
+
+theorem quadArt_ev (nor : E → E) (ν x : S) (hn : ∀ a, ev (nor a) = ν * ev a) (hx : x * x = ν) (a : V2 E) :
+    ev2 ev x (quadArt nor a) = x * ev2 ev x a := by
+  simp only [ev2, quadArt, hn]
+  linear_combination (-(ev a.c1)) * hx
+
+/-- a cubic level -/
+theorem cubHom (h : OpsHom o ev half) (hh : 2 * half = 1) (nor : E → E) (ν x : S) (hn : ∀ a, ev (nor a) = ν * ev a)
+    (hx : x * x * x = ν) : OpsHom (cubOps o nor) (ev3 ev x) half where
+  zero := by simp [cubOps, ev3, h.zero]
+  one := by simp [cubOps, ev3, h.zero, h.one]
+  add a b := by simp only [cubOps, ev3, v3Add, h.add]; ring
+  sub a b := by simp only [cubOps, ev3, v3Sub, h.sub]; ring
+  neg a := by simp only [cubOps, ev3, v3Neg, h.neg]; ring
+  dbl a := by simp only [cubOps, ev3, v3Dbl, h.dbl]; ring
+  hlv a := by simp only [cubOps, ev3, v3Hlv, h.hlv]; ring
+  mul a b := by
+    simp only [cubOps, ev3, cubMul, h.add, h.sub, h.mul, hn]
+    linear_combination (-(ev a.c1 * ev b.c2 + ev a.c2 * ev b.c1) - ev a.c2 * ev b.c2 * x) * hx
+  sqr a := by
+    simp only [cubOps, ev3, cubSqr, h.add, h.sub, h.mul, h.sqr, h.dbl, h.hlv, hn]
+    linear_combination (-(2 * ev a.c1 * ev a.c2) - ev a.c2 * ev a.c2 * x) * hx +
+      (((ev a.c0 + ev a.c2) ^ 2 + ev a.c1 ^ 2) * (x * x - x)) * hh
+
+theorem cubArt_ev (nor : E → E) (ν x : S) (hn : ∀ a, ev (nor a) = ν * ev a) (hx : x * x * x = ν) (a : V3 E) :
+    ev3 ev x (cubArt nor a) = x * ev3 ev x a := by
+  simp only [ev3, cubArt, hn]
+  linear_combination (-(ev a.c2)) * hx
+
+/-- fp2 over a base whose operations are carried to a ring (the qnr loops) -/
+theorem fp2Hom (h : OpsHom o ev half) (q : Int) (hq : q ≤ -1) (x : S) (hx : x * x = (q : S)) :
+    OpsHom (fp2Ops o q) (ev2 ev x) half where
+  zero := by simp [fp2Ops, ev2, h.zero]
+  one := by simp [fp2Ops, ev2, h.zero, h.one]
+  add a b := by simp only [fp2Ops, ev2, v2Add, h.add]; ring
+  sub a b := by simp only [fp2Ops, ev2, v2Sub, h.sub]; ring
+  neg a := by simp only [fp2Ops, ev2, v2Neg, h.neg]; ring
+  dbl a := by simp only [fp2Ops, ev2, v2Dbl, h.dbl]; ring
+  hlv a := by simp only [fp2Ops, ev2, v2Hlv, h.hlv]; ring
+  mul a b := by
+    simp only [fp2Ops, ev2, fp2Mul, h.add, h.sub, h.mul, h.iter_sub, h.iter_add, negLoop_cast hq, posLoop_zero hq]
+    push_cast
+    linear_combination (-(ev a.c1 * ev b.c1)) * hx
+  sqr a := by
+    simp only [fp2Ops, ev2, fp2Sqr]
+    by_cases h1 : q = -1
+    · simp only [if_pos h1, h.add, h.sub, h.mul, h.dbl, h.iter_sub, h.iter_add, negLoop_cast hq, posLoop_zero hq]
+      subst h1; push_cast at hx ⊢
+      linear_combination (-(ev a.c1 * ev a.c1)) * hx
+    · simp only [if_neg h1, h.add, h.sub, h.mul, h.dbl, h.iter_sub, h.iter_add, negLoop_cast hq, posLoop_zero hq]
+      push_cast
+      linear_combination (-(ev a.c1 * ev a.c1)) * hx
+
+theorem fp2MulArt_ev (h : OpsHom o ev half) (q : Int) (hq : q ≤ -1) (x : S) (hx : x * x = (q : S)) (a : V2 E) :
+    ev2 ev x (fp2MulArt o q a) = x * ev2 ev x a := by
+  simp only [ev2, fp2MulArt, h.neg, h.iter_sub, h.iter_add, negLoop_cast hq, posLoop0_zero hq]
+  push_cast
+  linear_combination (-(ev a.c1)) * hx
+
+/-- fp3 over such a base (the cnr loops; Chung–Hasan squaring needs 2·half = 1) -/
+theorem OpsHom.mulCnr (h : OpsHom o ev half) (c : Int) (t acc : E) :
+    ev (mulCnr o c t acc) = ev acc + ((c : S) - 1) * ev t := by
+  unfold Relic.Model.Fpx.mulCnr
+  rw [h.iter_sub, h.iter_add]
+  rcases le_or_gt c 0 with hc | hc
+  · rw [negLoop0_cast hc, posLoop_zero' (by omega)]; push_cast; ring
+  · rw [negLoop0_zero (by omega), posLoop_cast (by omega)]; push_cast; ring
+
+theorem fp3Hom (h : OpsHom o ev half) (hh : 2 * half = 1) (c : Int) (x : S) (hx : x * x * x = (c : S)) :
+    OpsHom (fp3Ops o c) (ev3 ev x) half where
+  zero := by simp [fp3Ops, ev3, h.zero]
+  one := by simp [fp3Ops, ev3, h.zero, h.one]
+  add a b := by simp only [fp3Ops, ev3, v3Add, h.add]; ring
+  sub a b := by simp only [fp3Ops, ev3, v3Sub, h.sub]; ring
+  neg a := by simp only [fp3Ops, ev3, v3Neg, h.neg]; ring
+  dbl a := by simp only [fp3Ops, ev3, v3Dbl, h.dbl]; ring
+  hlv a := by simp only [fp3Ops, ev3, v3Hlv, h.hlv]; ring
+  mul a b := by
+    simp only [fp3Ops, ev3, fp3Mul, h.mulCnr, h.add, h.sub, h.mul]
+    linear_combination (-(ev a.c1 * ev b.c2 + ev a.c2 * ev b.c1) - ev a.c2 * ev b.c2 * x) * hx
+  sqr a := by
+    simp only [fp3Ops, ev3, fp3Sqr, h.mulCnr, h.add, h.sub, h.mul, h.sqr, h.dbl, h.hlv]
+    linear_combination (-(2 * ev a.c1 * ev a.c2) - ev a.c2 * ev a.c2 * x) * hx +
+      (((ev a.c0 + ev a.c2) ^ 2 + ev a.c1 ^ 2) * (x * x - x)) * hh
+
+/-- the base of the stack: arithmetic modulo an odd prime on Nat, evaluated in ZMod p -/
+theorem natHom (p : Nat) (hodd : p % 2 = 1) :
+    OpsHom (natOps p) (fun n : Nat => (n : ZMod p)) (((p + 1) / 2 : Nat) : ZMod p) where
+  zero := by simp [natOps]
+  one := by simp [natOps]
+  add a b := by simp [natOps]
+  sub a b := by
+    simp only [natOps]
+    have hb : b % p ≤ p := Nat.le_of_lt (Nat.mod_lt _ (by omega))
+    rw [ZMod.natCast_mod, Nat.add_sub_assoc hb, Nat.cast_add, Nat.cast_sub hb]
+    simp [sub_eq_add_neg]
+  mul a b := by simp [natOps]
+  neg a := by
+    simp only [natOps]
+    have ha : a % p ≤ p := Nat.le_of_lt (Nat.mod_lt _ (by omega))
+    rw [ZMod.natCast_mod, Nat.cast_sub ha]
+    simp
+  sqr a := by simp [natOps]
+  dbl a := by simp [natOps]
+  hlv a := by simp [natOps, mul_comm]
+
+/-- (p+1)/2 is the inverse of 2 modulo an odd p -/
+theorem half_spec (p : Nat) (hodd : p % 2 = 1) : 2 * (((p + 1) / 2 : Nat) : ZMod p) = 1 := by
+  have : 2 * ((p + 1) / 2) = p + 1 := by omega
+  have h := congrArg (fun n : Nat => (n : ZMod p)) this
+  simpa using h
+
+/-- composition with a ring homomorphism -/
+theorem OpsHom.comp {S' : Type} [CommRing S'] (h : OpsHom o ev half) (φ : S →+* S') :
+    OpsHom o (fun a => φ (ev a)) (φ half) where
+  zero := by simp [h.zero]
+  one := by simp [h.one]
+  add a b := by simp [h.add]
+  sub a b := by simp [h.sub]
+  mul a b := by simp [h.mul]
+  neg a := by simp [h.neg]
+  sqr a := by simp [h.sqr]
+  dbl a := by simp [h.dbl]
+  hlv a := by simp [h.hlv]
+
+theorem iter_v2Dbl_ev (h : OpsHom o ev half) (x : S) (a : V2 E) : ∀ n : Nat,
+    ev2 ev x (iter (v2Dbl o) n a) = 2 ^ n * ev2 ev x a
+  | 0 => by simp [iter]
+  | n + 1 => by
+    rw [iter, iter_v2Dbl_ev h x _ n]
+    simp only [ev2, v2Dbl, h.dbl]; ring
+
+/-- the constant fp2_mul_nor multiplies by, as an element of S (x = the image of the adjoined root i) -/
+def norConstS (x : S) (mod8 qnr2 : Nat) : S :=
+  if mod8 = 1 ∨ mod8 = 5 then x
+  else if mod8 = 3 ∧ qnr2 = 1 then 1 + x
+  else 2 ^ Nat.log2 qnr2 + x
+
+theorem fp2MulNor_ev (h : OpsHom o ev half) (q : Int) (hq : q ≤ -1) (x : S) (hx : x * x = (q : S)) (mod8 qnr2 : Nat)
+    (a r : V2 E) (hr : fp2MulNor o q mod8 qnr2 a = some r) (h3 : mod8 = 3 → qnr2 = 1 → q = -1) :
+    ev2 ev x r = norConstS x mod8 qnr2 * ev2 ev x a := by
+  have gen : ev2 ev x (v2Add o (iter (v2Dbl o) (Nat.log2 qnr2) a) (fp2MulArt o q a)) = (2 ^ Nat.log2 qnr2 + x) * ev2 ev x a := by
+    have e1 := iter_v2Dbl_ev h x a (Nat.log2 qnr2)
+    have e2 := fp2MulArt_ev h q hq x hx a
+    simp only [ev2, v2Add, h.add] at e1 e2 ⊢
+    linear_combination e1 + e2
+  unfold fp2MulNor at hr
+  unfold norConstS
+  split at hr
+  · simp only [Option.some.injEq] at hr; subst hr
+    simp [fp2MulArt_ev h q hq x hx]
+  · simp only [Option.some.injEq] at hr; subst hr
+    simp [fp2MulArt_ev h q hq x hx]
+  · by_cases hq2 : qnr2 = 1
+    · simp only [hq2, if_true, Option.some.injEq] at hr; subst hr
+      have hq1 := h3 rfl hq2
+      subst hq1
+      simp only [hq2, ev2, h.add, h.neg]
+      push_cast at hx
+      simp
+      linear_combination (-(ev a.c1)) * hx
+    · simp only [hq2, if_false, Option.some.injEq] at hr; subst hr
+      simpa [hq2] using gen
+  · simp only [Option.some.injEq] at hr; subst hr
+    simpa using gen
+  · exact absurd hr (by simp)
+
+/-- **the fp12 model as the driver stacks it** (`Driver.C10.Env.l12`): over Z/pZ on Nat, fp2 with the qnr loops, fp6
+    with fp2_mul_nor, fp12 with fp6_mul_art. For every commutative ring S with a homomorphism from Z/pZ and elements
+    i, v, w with i² = qnr, v³ = ξ (the constant of fp2_mul_nor), w² = v, the evaluation
+    a ↦ Σ a_{jkl} · i^l · v^k · w^j carries all operations of the stack to the ring operations of S. -/
+theorem fp12_stack_hom (p : Nat) (hodd : p % 2 = 1) (q : Int) (hq : q ≤ -1) (mod8 qnr2 : Nat)
+    (hm : mod8 = 1 ∨ mod8 = 3 ∨ mod8 = 5 ∨ mod8 = 7) (h3 : mod8 = 3 → qnr2 = 1 → q = -1)
+    {S : Type} [CommRing S] (φ : ZMod p →+* S) (i v w : S) (hi : i * i = (q : S))
+    (hv : v * v * v = norConstS i mod8 qnr2) (hw : w * w = v) :
+    let nor2 : V2 Nat → V2 Nat := fun a => (fp2MulNor (natOps p) q mod8 qnr2 a).getD a
+    OpsHom (quadOps (cubOps (fp2Ops (natOps p) q) nor2) (cubArt nor2))
+      (ev2 (ev3 (ev2 (fun n : Nat => φ (n : ZMod p)) i) v) w) (φ (((p + 1) / 2 : Nat) : ZMod p)) := by
+  intro nor2
+  have hb := (natHom p hodd).comp φ
+  have hh : 2 * φ (((p + 1) / 2 : Nat) : ZMod p) = 1 := by
+    have := congrArg φ (half_spec p hodd)
+    rw [map_mul, map_one, map_ofNat] at this
+    exact this
+  have h2 := fp2Hom hb q hq i hi
+  have hn2 : ∀ a, ev2 (fun n : Nat => φ (n : ZMod p)) i (nor2 a) = norConstS i mod8 qnr2 * ev2 (fun n : Nat => φ (n : ZMod p)) i a := by
+    intro a
+    have hsome : ∃ r, fp2MulNor (natOps p) q mod8 qnr2 a = some r := by
+      unfold fp2MulNor
+      rcases hm with rfl | rfl | rfl | rfl
+      · exact ⟨_, rfl⟩
+      · by_cases hq2 : qnr2 = 1
+        · simp [hq2]
+        · simp [hq2]
+      · exact ⟨_, rfl⟩
+      · exact ⟨_, rfl⟩
+    obtain ⟨r, hr⟩ := hsome
+    have : nor2 a = r := by simp [nor2, hr]
+    rw [this]
+    exact fp2MulNor_ev hb q hq i hi mod8 qnr2 a r hr h3
+  have h6 := cubHom h2 hh nor2 _ v hn2 hv
+  exact quadHom h6 (cubArt nor2) v w (cubArt_ev nor2 _ v hn2 hv) hw
+
+end partC
+
+/-! ## Part D: loops -/
+
+section partD
+variable {E S : Type} [CommRing S] {o : FOps E} {ev : E → S} {half : S}
+
+/-- value of a bit string with an implicit leading 1 -/
+def bitsVal (bits : List Bool) : Nat := bits.foldl (fun acc b => 2 * acc + (if b then 1 else 0)) 1
+
+theorem expBin_aux (h : OpsHom o ev half) (a : E) : ∀ (bits : List Bool) (t : E) (n : Nat), ev t = ev a ^ n →
+    ev (bits.foldl (fun t b => let t := o.sqr t; if b then o.mul t a else t) t) =
+      ev a ^ (bits.foldl (fun acc b => 2 * acc + (if b then 1 else 0)) n)
+  | [], t, n, ht => by simpa using ht
+  | b :: bs, t, n, ht => by
+    simp only [List.foldl_cons]
+    apply expBin_aux h a bs
+    cases b
+    · simp only [h.sqr, ht, Bool.false_eq_true, if_false, add_zero]; ring
+    · simp only [h.sqr, h.mul, ht, if_true]; ring
+
+/-- fpN_exp (plain branch): left-to-right square-and-multiply computes the power -/
+theorem expBin_eq (h : OpsHom o ev half) (a : E) (bits : List Bool) :
+    ev (expBin o a bits) = ev a ^ bitsVal bits := by
+  unfold expBin bitsVal
+  exact expBin_aux h a bits a 1 (by simp)
+
+end partD
+
 end Relic.Lemmas.Fpx
